@@ -6,6 +6,9 @@ use ahash::AHashMap;
 use log::{debug, info, trace, warn};
 use primitive_types::U256;
 use rayon::prelude::*;
+#[cfg(saito_verif)]
+use crate::core::verif_lock::RwLock;
+#[cfg(not(saito_verif))]
 use tokio::sync::RwLock;
 
 use crate::core::consensus::block::Block;
